@@ -269,6 +269,12 @@ def _iterative(col, rule, sx: SCtx, q, whiles, adds, e_nid, e_call, graph_p, src
     if len(names) != 1:
         raise AnalysisError(f"{q}: loop condition is not a test of the work stack (cannot decide)")
     todo = names[0]
+    tt = S.norm_cond(True, sym.of(wh.ast, wh.id))
+    runs_while_nonempty = tt[:1] in (("acc",), ("list",), ("nonempty",), ("opaque",), ("alt",), ("call",)) or \
+        (tt[:1] == ("cmp",) and tt[1] in (">", "!=", ">="))
+    col.add(rule, f"{q}#runs-while-the-stack-is-nonempty", runs_while_nonempty and not (tt[:1] == ("uop",) and tt[1] == "not")
+            and tt[:1] != ("empty",), w.loc(wh.id),
+            "the traversal loop runs as long as the work stack holds a frame", S.show(tt)[:80])
 
     def succ_of(v):
         return (S.mcall(graph, "get", v, S.ANY), S.mcall(graph, "get", v), ("sub", graph, v))
